@@ -1,6 +1,6 @@
 from typing import Mapping
 
-from datetime import datetime, date, timezone
+from datetime import datetime, date, timedelta, timezone
 
 import numpy as np
 
@@ -477,6 +477,15 @@ class TimestampImporter:
         self.complete()
 
 
+def parse_utc_offset_bytes(field_name: str, value: bytes):
+    # the trailing six bytes are the written UTC offset: b'+HH:MM' or b'-HH:MM'
+    sign = value[-6:-5]
+    if sign not in (b'+', b'-'):
+        raise ValueError(f"Date field '{field_name}' has unexpected format '{value}'")
+    offset = timedelta(hours=int(value[-5:-3]), minutes=int(value[-2:]))
+    return timezone(-offset if sign == b'-' else offset)
+
+
 def parse_timestamp_bytes(field_name: str, value: bytes):
     v_len = len(value)
 
@@ -502,11 +511,12 @@ def parse_timestamp_bytes(field_name: str, value: bytes):
             # ts = datetime.strptime(value.decode(), '%Y-%m-%d %H:%M:%S.%f%z')
             v_datetime = datetime(int(value[0:4]), int(value[5:7]), int(value[8:10]),
                                   int(value[11:13]), int(value[14:16]), int(value[17:19]),
-                                  int(value[20:26]), tzinfo=timezone.utc)
+                                  int(value[20:26]), tzinfo=parse_utc_offset_bytes(field_name, value))
         elif v_len == 25:
             # ts = datetime.strptime(value.decode(), '%Y-%m-%d %H:%M:%S%z')
             v_datetime = datetime(int(value[0:4]), int(value[5:7]), int(value[8:10]),
-                                  int(value[11:13]), int(value[14:16]), int(value[17:19]), tzinfo=timezone.utc)
+                                  int(value[11:13]), int(value[14:16]), int(value[17:19]),
+                                  tzinfo=parse_utc_offset_bytes(field_name, value))
         elif v_len == 19:
             v_datetime = datetime(int(value[0:4]), int(value[5:7]), int(value[8:10]),
                                   int(value[11:13]), int(value[14:16]), int(value[17:19]), tzinfo=timezone.utc)
